@@ -227,7 +227,7 @@ int main (int argc, char **argv)
 	for (f = 0 ; f < vh_nfmts ; f++) for (c = 1 ; c <= (vh_thorough ? 4 : 2) ; c++)
 	{	int format = vh_fmts [f].format ;
 		if (vh_fmts [f].major == SF_FORMAT_SD2 || !vh_accepts (format, c, 8000)) continue ;
-		for (rep = 0 ; rep < (vh_thorough ? 48 : 3) ; rep++) for (v = 0 ; v < 16 ; v++)
+		for (rep = 0 ; rep < (vh_thorough ? 48 : 8) ; rep++) for (v = 0 ; v < 16 ; v++)
 		{	int variant = v ;
 			if ((variant & 2) && !(vh_fmts [f].major == SF_FORMAT_WAV || vh_fmts [f].major == SF_FORMAT_AIFF || vh_fmts [f].major == SF_FORMAT_CAF || vh_fmts [f].major == SF_FORMAT_RF64 || vh_fmts [f].major == SF_FORMAT_WAVEX)) continue ;
 			if (rep > 0 && !(variant & 12) && !vh_thorough) continue ;		/* quick: only the truncated / damaged variants (random cut point and byte) are repeated */
@@ -236,7 +236,7 @@ int main (int argc, char **argv)
 			if (v == 1) vh_sample ("%s ch=%d: one generated file (variant bits: 1 strings, 2 60 KB chunk before the audio, 4 truncated tail, 8 damaged header byte) read via virtual I/O, path, fd close_desc 0/1, fd at offsets 1/7/4096 inside junk, pipe", vh_fname (format), c) ;
 			read_routes (format, c, variant) ;
 			}
-		for (rep = 0 ; rep < (vh_thorough ? 24 : 3) ; rep++) if (vh_case ("%s ch=%d write routes rep=%d", vh_fname (format), c, rep)) { vh_distinct (vh_fnv (0, &format, 4) ^ ((uint64_t) c << 33) ^ 0x77 ^ vh_rs) ; write_routes (format, c) ; }
+		for (rep = 0 ; rep < (vh_thorough ? 24 : 8) ; rep++) if (vh_case ("%s ch=%d write routes rep=%d", vh_fname (format), c, rep)) { vh_distinct (vh_fnv (0, &format, 4) ^ ((uint64_t) c << 33) ^ 0x77 ^ vh_rs) ; write_routes (format, c) ; }
 		}
 	rmdir (scratch) ;
 	return vh_finish () ;
